@@ -31,6 +31,7 @@ type Env struct {
 	Header  bool   // csv2 H line, edi HDR, fixedlength2 H line, xml/json context element
 	Trailer bool   // edi TRL
 	Ctx     string // xml/json: value of the context element (only when Header)
+	Filter  string // flat formats: FINAL_OUTPUT.xpath used as per-record target filter (records with a = SKIPME are dropped)
 	Deep    bool   // xml/json: the stream target matches at more than one depth (//n) and the
 	// records really sit at different depths (Rec.Wrap)
 }
@@ -207,7 +208,7 @@ func (f Fmt) Render(env Env, recs []Rec) []byte {
 }
 
 var wordsA = []string{"x", "abc", "héllo", "a b", "Q9", "zz top", "日本", "", "0", "w", "a", "c", "BOOM", "k7"}
-var wordsC = []string{"x", "abc", "héllo", "a b", "Q9", "zz top", "日本", "", "0", "w", "a", "b", "BOOM", "p"}
+var wordsC = []string{"x", "abc", "héllo", "a b", "Q9", "zz top", "日本", "", "0", "w", "a", "b", "BOOM", "p", "true", "false", "true", "false"}
 
 // GenRec draws a record.  ok=true asks for one on which none of the three fuses of the
 // generated schemas blows (b is an integer, a is not FAIL, a and c are not both BOOM).
@@ -240,6 +241,36 @@ func GenRec(r *vh.Rng, f Fmt, ok bool) Rec {
 		}
 	}
 	return rec
+}
+
+// Filters are per-record target filters for the flat formats: boolean / comparison / arithmetic
+// expressions whose operand has a filter followed by a positional predicate, and node-set
+// forms.  All are true exactly for records whose field a is not SKIPME.  (Function-call filters such
+// as not(...) and node-set = node-set comparisons select nothing on HEAD and are left out.)
+var Filters = []string{
+	"a[. != 'SKIPME'][1] != 'NEVER'",
+	"count(a[. != 'SKIPME'][1]) > 0",
+	".[a != 'SKIPME']",
+	"a[. != 'SKIPME'][1] != 'SKIPME'",
+	"*[. != 'SKIPME'][1][name() = 'a'] != 'NEVER'",
+}
+
+// WithNoise inserts records the filter drops (a = SKIPME) at random places.
+func (f Fmt) WithNoise(r *vh.Rng, env Env, recs []Rec) []Rec {
+	if env.Filter == "" || f.Name == "json" || f.Name == "xml" {
+		return recs
+	}
+	var out []Rec
+	for _, rec := range recs {
+		for r.Chance(0.3) {
+			out = append(out, Rec{A: "SKIPME", B: "7", C: "x"})
+		}
+		out = append(out, rec)
+	}
+	if r.Chance(0.3) {
+		out = append(out, Rec{A: "SKIPME", B: "7", C: "x"})
+	}
+	return out
 }
 
 // Place puts a record into the envelope's layout (depth) - call after GenRec / MakeFailing.
@@ -380,6 +411,24 @@ var groups = []group{
 	{"multi-arg", []string{
 		`"key": {"custom_func":{"name":"concat","args":[{"external":"ext_s"},{"const":"/"},{"xpath":"a","keep_empty_or_null":true},{"const":"/"},{"xpath":"c","keep_empty_or_null":true},{"const":"/"},{"external":"ext_i"}]}}`,
 		`"key2": {"custom_func":{"name":"javascript","args":[{"const":"p+'|'+q+'|'+s"},{"const":"p"},{"external":"ext_s"},{"const":"q"},{"xpath":"a","keep_empty_or_null":true},{"const":"s"},{"external":"ext_f"}]}}`}, nil, ""},
+	// a custom function whose FLAG argument depends on the record (c = true / false) while its
+	// other arguments are the same for all records: each record must get the result for ITS flag
+	{"flag-arg", []string{
+		`"dtf": {"custom_func":{"name":"dateTimeLayoutToRFC3339","ignore_error":true,"args":[{"const":"2021-05-06T07:08:09-05:00"},{"const":"2006-01-02T15:04:05-07:00"},{"xpath":"c","keep_empty_or_null":true},{"const":""},{"const":"America/Los_Angeles"}]}}`,
+		`"dtflag": {"xpath":"c","keep_empty_or_null":true}`}, nil, ""},
+	// custom functions that take the current node IMPLICITLY (copy, javascript_with_context) with
+	// no xpath of their own, as members of the object that is the element of an array: evaluated
+	// on several nodes of ONE record
+	{"implicit-node", []string{
+		`"impl": {"array":[{"xpath":"*","object":{"cp":{"custom_func":{"name":"copy"}},"nj":{"custom_func":{"name":"javascript_with_context","args":[{"const":"_node"}]}},"ne":{"custom_func":{"name":"javascript_with_context","args":[{"const":"_node + '/' + x"},{"const":"x"},{"external":"ext_s"}]}},"k":{"const":"K"}}}]}`}, nil, ""},
+	// output field names containing '.' / '%' that share the text after their last '.'; two of
+	// them fail on a non-numeric b
+	{"dotted-names", []string{
+		`"qty.value": {"xpath":"b","type":"int"}`, `"price.value": {"xpath":"b","type":"int"}`, `"x%.value": {"xpath":"b","type":"int"}`,
+		`"a.id": {"xpath":"a"}`, `"b.id": {"xpath":"c"}`, `"value": {"xpath":"a"}`}, nil, ""},
+	// a custom function NAME that different Extensions bind to different functions
+	{"normalize", []string{
+		`"nz": {"custom_func":{"name":"normalize","args":[{"xpath":"a","keep_empty_or_null":true}]}}`}, nil, ""},
 	// a script reading globals it was not passed
 	{"js-global-probe", []string{
 		`"probe": {"custom_func":{"name":"javascript","args":[{"const":"typeof discount === 'undefined' ? 0 : discount"}]}}`,
@@ -471,6 +520,9 @@ func (f Fmt) SchemaWith(r *vh.Rng, must []string, extra []string, env Env) (stri
 	}
 	if (f.Name == "json" || f.Name == "xml") && env.Deep {
 		finalXPath = "//n"
+	}
+	if env.Filter != "" && f.Name != "json" && f.Name != "xml" {
+		finalXPath = env.Filter
 	}
 	decls, feats := GenDecls(r, f.Name, finalXPath, must, extra)
 	s := `{"parser_settings": ` + string(top["parser_settings"])
